@@ -81,8 +81,47 @@ def gen_age(rng):
     return rng.randrange(86400, 40000000)
 
 
-def gen_ops(rng, n_cg, n_fixed, n_secs):
+# ---------------------------------------------------------------- overlapping requests (round 5)
+# Sessions of ONE user authenticated at different moments ask at the same time, the first one listed parked inside the
+# CA signer while the others arrive.  The statement is per certificate: what each session is handed is bounded by
+# *its own* authentication moment and *its own* request, whoever else is being served.
+PAR_AGES = [0, 10, 3600, 43200, 57600, 82800, 86000, 86340, 86390]
+PAR_FIXED = [
+    # (type, q|m, [(credential, age s, duration)])   -- the first request is the one parked in the signer
+    ("ssh", "m", [("cookie", 0, "24h"), ("cookie", 82800, "24h")]),
+    ("ssh", "m", [("cookie", 82800, "24h"), ("cookie", 0, "24h")]),
+    ("x509", "m", [("cookie", 10, None), ("cookie", 86000, None)]),
+    ("k8s", "q", [("cookie", 0, "12h"), ("cookie", 57600, "12h")]),
+    ("x509", "m", [("cookie", 0, "24h"), ("cert", 86340, "24h")]),
+    ("ssh", "q", [("cert", 10, None), ("cookie", 86340, None), ("cookie", 43200, None)]),
+    ("ssh", "m", [("cookie", 0, "24h"), ("cookie", 0, "1h")]),
+    ("x509", "m", [("cookie", 0, "2h"), ("cookie", 10, "1m")]),
+    ("ssh", "m", [("cookie", 0, "1h"), ("cookie", 90000, "1h")]),
+    ("x509", "m", [("cookie", 3600, "24h"), ("cookie", 3600, "-1h"), ("cookie", 86390, "24h"), ("cookie", 3600, "25h")]),
+]
+
+
+def gen_par(rng):
+    ty = rng.choice(["ssh", "ssh", "x509", "k8s"])
+    n = rng.choice([2, 2, 2, 3, 4])
+    same = rng.random() < 0.7      # identical requests (what a client that re-submits sends), or each its own duration
+    d0 = rng.choice([None, "24h", "24h", "1h", "12h", "86400s", "30m", "23h"])
+    reqs = []
+    for _ in range(n):
+        d = d0 if same else rng.choice([None, "24h", "1h", "12h", "30m", "10s", "0s", "-1h", "25h", "10X"])
+        age = rng.choice(PAR_AGES) if rng.random() < 0.7 else rng.randrange(0, 86400)
+        reqs.append((rng.choice(["cookie", "cookie", "cookie", "cert"]), age, d))
+    if same and len(set(r[1] for r in reqs)) == 1:   # at least two different authentication moments
+        reqs[-1] = (reqs[-1][0], (reqs[-1][1] + 43200) % 86400, reqs[-1][2])
+    return ("par", ty, rng.choice(["m", "m", "q"]), reqs)
+
+
+def gen_ops(rng, n_cg, n_fixed, n_secs, n_par=0):
     ops = []
+    for ty, mode, reqs in PAR_FIXED:
+        ops.append(("par", ty, mode, reqs))
+    for _ in range(n_par):
+        ops.append(gen_par(rng))
     # corpus: every string as ssh on a fresh cookie; the first dozen also as x509 and on old sessions
     for i, d in enumerate(CORPUS):
         ops.append(("cg", "ssh", "cookie", 10, "m", d))
@@ -176,6 +215,8 @@ def gen_ops(rng, n_cg, n_fixed, n_secs):
 
 
 def op_line(o):
+    if o[0] == "par":
+        return "par %s %s %s" % (o[1], o[2], " ".join("%s:%d:%s" % (a, age, "~" if d is None else c.hexs(d)) for a, age, d in o[3]))
     if o[0] == "cg":
         return "cg %s %s %d %s %s" % (o[1], o[2], o[3], o[4], "~" if o[5] is None else c.hexs(o[5]))
     if o[0] == "seq":
@@ -205,22 +246,44 @@ def run(ctx):
     facts = c.regen(ctx)
     c.prove(ctx)
     if ctx.quick():
-        ops = gen_ops(ctx.rng, 1500, 24, 20000)
+        ops = gen_ops(ctx.rng, 1500, 24, 20000, 50)
     else:
-        ops = gen_ops(ctx.rng, 30000, 300, 400000)
+        ops = gen_ops(ctx.rng, 30000, 300, 400000, 600)
     if ctx.replay:
         rp = json.load(open(ctx.replay))
         rops = []
         for v in rp.get("violations", []):
             if "op" in v.get("replay", {}):
                 rops.append(("ca", v["replay"].get("ca", 0)))
-                rops.append(tuple(v["replay"]["op"]))
+                rops.append(tuple(v["replay"].get("par") or v["replay"]["op"]))
         ops = rops or ops[:200]
     lines = [op_line(o) for o in ops]
     impl, log, rc = c.run_harness(ctx, "cmd/keymasterd", "C03", lines, timeout=1500)
     if rc != 0 or len(impl) != len(ops):
         ctx.broken.append("harness TestVerifC03 did not complete (exit %d, %d/%d lines)" % (rc, len(impl), len(ops)))
         return c.finish(ctx)
+
+    # ------------------------------------------------------------ overlapping requests: one judged entry per request
+    # ("pcg": judged and modelled exactly like a cg op, with the session's own authentication moment and clock bracket)
+    par_ops = par_parked = par_waiting = par_distinct_iat = 0
+    f_ops, f_impl, f_lines, par_of = [], [], [], []
+    for o, line, opl in zip(ops, impl, lines):
+        if o[0] != "par":
+            f_ops.append(o); f_impl.append(line); f_lines.append(opl); par_of.append(None)
+            continue
+        parts = [x.strip() for x in line.split("|")]
+        head = parts[0].split()
+        if len(parts) != len(o[3]) + 1 or len(head) != 3 or any(len(x.split()) != 7 for x in parts[1:]):
+            ctx.broken.append("harness: overlapping requests did not complete for %r: %s" % (o, line))
+            continue
+        par_ops += 1
+        par_parked += head[1] == "1"
+        par_waiting += int(head[2])
+        par_distinct_iat += len(set(r[1] for r in o[3])) > 1
+        for k, (r, res) in enumerate(zip(o[3], parts[1:])):
+            f_ops.append(("pcg", o[1], r[0], r[1], o[2], r[2], k))
+            f_impl.append(res); f_lines.append(opl + "  #request %d" % (k + 1)); par_of.append((o, line))
+    ops, impl, lines = f_ops, f_impl, f_lines
 
     # ------------------------------------------------------------ model on the same ops
     mops, canon_impl, jops, jslack = [], [], [], []
@@ -241,7 +304,7 @@ def run(ctx):
             ctx.broken.append("harness: second-factor step-up did not complete for %r: %s" % (o, line))
             mops.append("ca 0"); canon_impl.append("ok"); jops.append("ca 0"); jslack.append("ca 0")
             continue
-        if o[0] in ("cg", "seq"):
+        if o[0] in ("cg", "seq", "pcg"):
             if o[0] == "seq":
                 presented = f[7]
                 f = f[:7]
@@ -257,11 +320,12 @@ def run(ctx):
             canon_impl.append("%s %s" % (status, life))
             jops.append("cg %s %s %d %d %d %s %s %s" % (o[1], parsed, ihi, tb, ta, status, va, vb))
             jslack.append("cg %s %s %d %d %d %s %s %s" % (o[1], parsed, ihi + SLACK, tb - SLACK, ta + SLACK, status, va, vb))
-            br = ("seq:" if o[0] == "seq" else "") + branch(parsed, o[3]) + (":ca-ahead" if cur_ca > 0 and o[1] != "ssh" else "")
+            br = ("seq:" if o[0] == "seq" else "overlap:" if o[0] == "pcg" else "") + branch(parsed, o[3]) + (":ca-ahead" if cur_ca > 0 and o[1] != "ssh" else "")
             hist[br] = hist.get(br, 0) + 1
             statuses[status] = statuses.get(status, 0) + 1
             if status == "200":
-                issued.add((o[0], o[1], o[2], parsed, o[3], cur_ca))
+                issued.add((o[0], o[1], o[2], parsed, o[3], cur_ca) +
+                           ((o[6], tuple(r[1] for r in par_of[len(ca_at) - 1][0][3])) if o[0] == "pcg" else ()))
         elif o[0] in ("role", "aws"):
             status, chosen, tb, ta, nb, na = f[:6]
             if o[0] == "role" and len(f) == 7:
@@ -331,6 +395,13 @@ def run(ctx):
                 key = "%s:duration=%s:age=%d:auth=%s%s" % (o[1], json.dumps(o[5]), o[3], o[2], ":ca=%+d" % ca_at[i] if ca_at[i] else "")
                 what = "POST /certgen/username type=%s duration=%r (parsed %s ns) on a %s credential aged %d s%s -> %s [%s]" % (
                     o[1], o[5], impl[i].split()[1], o[2], o[3], ca_txt, verdicts[i], impl[i])
+            elif o[0] == "pcg":
+                po, pline = par_of[i]
+                key = "overlap:%s:request=%d:of=%s" % (o[1], o[6] + 1, ",".join("%s/%d/%s" % (a, age, json.dumps(d)) for a, age, d in po[3]))
+                what = ("%d overlapping POST /certgen/username type=%s of one user (the first parked inside the CA signer while the others "
+                        "arrive): %s; request %d (%s credential authenticated %d s ago, duration=%r) was answered %s [%s]" % (
+                            len(po[3]), o[1], "; ".join("%d: %s aged %d s duration=%r" % (k + 1, a, age, d) for k, (a, age, d) in enumerate(po[3])),
+                            o[6] + 1, o[2], o[3], o[5], verdicts[i], impl[i]))
             elif o[0] == "seq":
                 key = "seq:%s:stepup=%s:login-age=%d:duration=%s%s" % (o[1], o[2], o[3], json.dumps(o[5]), ":ca=%+d" % ca_at[i] if ca_at[i] else "")
                 what = ("password login %d s ago, second-factor step-up (%s) now, then POST /certgen/username type=%s duration=%r%s: "
@@ -349,11 +420,15 @@ def run(ctx):
                 if ca_at[i]:
                     key += ":cacert=%+d" % ca_at[i]
                 what = "%s%s -> %s [%s]" % (" ".join(str(x) for x in o), ca_txt, verdicts[i], impl[i])
-            c.add_violation(ctx, key, what, {"op": list(o), "ca": ca_at[i], "line": lines[i], "impl": impl[i],
-                                             "model": model[i] if i < len(model) else None, "judge": verdicts[i]})
+            rp = {"op": list(o), "ca": ca_at[i], "line": lines[i], "impl": impl[i],
+                  "model": model[i] if i < len(model) else None, "judge": verdicts[i]}
+            if o[0] == "pcg":
+                rp["par"] = [par_of[i][0][0], par_of[i][0][1], par_of[i][0][2], [list(r) for r in par_of[i][0][3]]]
+                rp["all_answers"] = par_of[i][1]
+            c.add_violation(ctx, key, what, rp)
     n_cg = kinds.get("cg", 0)
     ctx.coverage.update({
-        "evaluations": n_cg + kinds.get("seq", 0) + kinds.get("role", 0) + kinds.get("aws", 0),
+        "evaluations": n_cg + kinds.get("pcg", 0) + kinds.get("seq", 0) + kinds.get("role", 0) + kinds.get("aws", 0),
         "float_step_evaluations": kinds.get("secs", 0), "float_carry_by_one_outside_exact_range": float_carry,
         "distinct_nontrivial": len(issued),
         "rule": "requests to the real certGenHandler (ssh/x509/x509-kubernetes x cookie/basic/client-cert/IP-cert credential x "
@@ -361,6 +436,9 @@ def run(ctx):
                 "non-trivial = distinct (type, credential kind, parsed duration, credential age) that ended in an issued certificate "
                 "whose validity window was decoded and judged",
         "branch_histogram": hist, "status_histogram": statuses, "op_kinds": kinds,
+        "overlap": {"schedules": par_ops, "first_request_parked_in_signer": par_parked, "requests_judged": kinds.get("pcg", 0),
+                    "schedules_with_distinct_authentication_moments": par_distinct_iat,
+                    "requests_still_waiting_elsewhere_when_the_signer_was_released": par_waiting},
         "stepup_sequences": kinds.get("seq", 0), "stepups_that_changed_the_cookie_iat": stepup_moved_iat,
         "ca_certificate_shifts": kinds.get("ca", 0),
         "judged": len(jops), "judged_failures": len(ctx.violations), "needed_clock_slack": slack_used,
